@@ -303,7 +303,7 @@ def word_family(ctx):
                                   "Word%r (as_keyword) at %r[%d]: character loop gives %r, regex %r gives %r" % (a, s, loc, l, w.reString, r), rep)
                 ctx.case(("word", a, s, loc), nontriv, ok)
     # --- model vs implementation (a stratified part of the grid; everything in thorough)
-    margs = [a for i, a in enumerate(allargs) if i % (2 if ctx.thorough else 3) == 0]
+    margs = [a for i, a in enumerate(allargs) if i % 3 == 0]
     alpha_m = "ab1] -"
     strs = strings(alpha_m[:5], n_model)
     pre = PRE + ("Definition strs := strings_upto %s %d.\n"
@@ -458,7 +458,7 @@ def oneof_family(ctx):
     # --- implementation oracle: use_regex on/off agree, result is a longest listed symbol
     strs_by_alpha = {}
     for syms in lists:
-        al = "".join(sorted(set("".join(syms) + "aB ")))[:6 if ctx.thorough else 4]
+        al = "".join(sorted(set("".join(syms) + "aB ")))[:5 if ctx.thorough else 4]
         if al not in strs_by_alpha:
             strs_by_alpha[al] = strings(al, n)
         strs = strs_by_alpha[al]
@@ -498,11 +498,12 @@ def oneof_family(ctx):
     al_m = "abAB.-"
     strs = strings(al_m, 2) + ([x for x in strings("ab.", 3) if len(x) == 3] if ctx.thorough else [])
     pre = PRE + ("Definition strs := strings_upto %s 2 ++ %s.\n"
-                 "Definition runo (cl : bool) (syms : list str) := match reorder cl syms with None => (false, [], REps, REps, [], []) | Some l => "
+                 "Definition runo (cl : bool) (syms : list str) := match reorder cl syms with None => (false, [], REps, REps, [], [], []) | Some l => "
                  "(true, l, oneof_regex cl false l, oneof_regex cl true l, "
                  "map (fun s => map (fun i => enc (oneof_regex_path cl false l s i) + 8 * enc (match match_first cl l s i with Some w => Some (i + length w) | None => None end) "
                  " + 64 * enc (oneof_regex_path cl true l s i) + 512 * enc (match match_first_kw cl l s i with Some w => Some (i + length w) | None => None end)) (seq 0 (S (length s)))) strs, "
-                 "map (fun s => map (fun i => match match_first cl l s i with Some w => w | None => [] end) (seq 0 (S (length s)))) strs) end.\n"
+                 "map (fun s => map (fun i => match match_first cl l s i with Some w => w | None => [] end) (seq 0 (S (length s)))) strs, "
+                 "match reorder_ix cl (reorder_fuel syms) syms 0 with Some l2 => l2 | None => [[0%%N]] end) end.\n"
                  % (cs(al_m), ("strings_exact %s 3" % cs("ab.")) if ctx.thorough else "[]"))
     exprs, keys = [], []
     for syms in mlists:
@@ -514,11 +515,13 @@ def oneof_family(ctx):
     for i in range(0, len(exprs), B):
         res.extend(vlib.coq_eval_terms("c17_oneof_%d" % i, pre, exprs[i:i + B], timeout=900))
     for (syms, cl), out in zip(keys, res):
-        okf, ml, mre, mrekw, rows, wrows = out
+        okf, ml, mre, mrekw, rows, wrows, mlix = out
         if not okf:
             ctx.broken("correspondence:oneof-fuel model ran out of fuel on %r" % (syms,))
             continue
         ml = [vlib.from_coq_str(w) for w in ml]
+        if [vlib.from_coq_str(w) for w in mlix] != ml:
+            ctx.broken("correspondence:oneof-index-model reorder_ix and reorder differ on %r caseless=%r" % (syms, cl))
         e_mf = oneof_build(syms, cl, False, False)
         real_syms = oneof_symbols(e_mf)
         if real_syms is not None and real_syms != ml:
